@@ -17,6 +17,10 @@
 (*   always: build_step(always_outdated=True)                                    *)
 (*   deps  : earlier target names (alias / cmd / test / default / install)       *)
 (*   dist  : FALSE for files declared with dist=False (C18)                      *)
+(*   xdeps : earlier targets passed as extra_deps= of a linked target (its link step) or of a    *)
+(*           build_step                                                            *)
+(*   hdr   : TRUE for a linked target compiled with includes=[header_file('h2.h')]: every       *)
+(*           object (and the precompiled header) of the target depends on h2.h     *)
 (*   pch   : TRUE for a linked target compiled with pch='pch_<name>.h': bfg9000    *)
 (*           creates the precompiled-header step itself; it consumes the header    *)
 (*           file pch_<name>.h and every generated header passed as includes=,     *)
@@ -43,6 +47,7 @@ Includes(f) == IF f \in {"s1", "s2"} THEN {"h1"} ELSE {}
 PchFile(nm) == "pch_" \o nm
 DirectFiles(d) == LET fs == FilesOf(d.srcs) \cup FilesOf(d.ins) IN
                   fs \cup UNION { Includes(f) : f \in fs } \cup (IF d.pch THEN {PchFile(d.name)} ELSE {})
+                     \cup (IF d.hdr THEN {"h2"} ELSE {})
 
 \* libraries whose requirements a static library forwards to whoever links it
 RECURSIVE Forward(_, _)
@@ -54,7 +59,7 @@ Forward(script, nm) ==
 \* targets a declaration consumes directly.  mode "must": what the step really reads;
 \* mode "may": additionally what the script merely declares (a static library's libs=)
 DirectTargets(script, d, mode) ==
-  TargetsOf(d.srcs) \cup TargetsOf(d.ins) \cup ToSet(d.deps)
+  TargetsOf(d.srcs) \cup TargetsOf(d.ins) \cup ToSet(d.deps) \cup ToSet(d.xdeps)
   \cup (IF d.kind \in {"exe", "shlib"} THEN ToSet(d.libs) \cup UNION { Forward(script, l) : l \in ToSet(d.libs) } ELSE {})
   \cup (IF d.kind = "slib" /\ mode = "may" THEN ToSet(d.libs) ELSE {})
 
@@ -90,8 +95,9 @@ Objs(script) == UNION { { <<nm, s>> : s \in ToSet(Decl(script, nm).srcs) } \cup 
                         nm \in { x \in Targets(script) : Linked(Decl(script, x)) } }
 \* does recompiling object o = <<target, src>> follow from a change of file f / of target x ?
 \* (every object of a pch target is compiled against the precompiled header)
-ObjReadsFile(o, f) == \/ o[2].f # "" /\ (o[2].f = f \/ f \in Includes(o[2].f))
-                      \/ f = PchFile(o[1])
+ObjReadsFile(script, o, f) == \/ o[2].f # "" /\ (o[2].f = f \/ f \in Includes(o[2].f))
+                              \/ f = PchFile(o[1])
+                              \/ (f = "h2" /\ Decl(script, o[1]).hdr)
 \* (a linked target's `ins` are generated headers passed as includes=: all its objects depend on them)
 ObjReadsTarget(script, o, x) == \/ (o[2].t # "" /\ x \in Upstream(script, o[2].t, "must"))
                                 \/ \E h \in TargetsOf(Decl(script, o[1]).ins) : x \in Upstream(script, h, "must")
